@@ -4,7 +4,9 @@
 //     (`availPorts.Remove(mesos.Value_Range{Begin: 0, End: 8999})` inside the loop over
 //     wants.InboundChannels),
 //   - the upper end of the range removed before the control port is picked (... End: 29999).
-// It also checks the skeleton the model takes for granted and fails when it is not found: exactly
+// It also checks the skeleton the model takes for granted and fails when it is not found (since the
+// repairs C05-c/d/f/g: four Subtract calls, an emptiness guard before each Min(), the offer leaves
+// the decline set after the last give-up): exactly
 // two such Remove calls, both starting at 0, the first one inside the channel loop and the second
 // one after it, each followed by a `.Min()` pick, and exactly two
 // `remainingResourcesInOffer.Subtract(...)` calls (one per pick: static ranges, cpu and memory are
@@ -46,10 +48,40 @@ func trPlacement() string {
 	}
 	var removes []rem
 	mins, subtracts := 0, 0
+	var subtractPos []token.Pos
+	guards := 0
+	var deletePos, lastGiveUp token.Pos
 	ast.Inspect(fd.Body, func(n ast.Node) bool {
+		switch x := n.(type) {
+		case *ast.IfStmt: // if len(availPorts) == 0 { return nil, nil }
+			if be, ok := x.Cond.(*ast.BinaryExpr); ok && be.Op == token.EQL {
+				if ce, ok := be.X.(*ast.CallExpr); ok && len(ce.Args) == 1 {
+					fn, _ := ce.Fun.(*ast.Ident)
+					arg, _ := ce.Args[0].(*ast.Ident)
+					if v, isInt := intLit(be.Y); fn != nil && fn.Name == "len" && arg != nil && arg.Name == "availPorts" && isInt && v == 0 {
+						if len(x.Body.List) == 1 {
+							if _, isRet := x.Body.List[0].(*ast.ReturnStmt); isRet {
+								guards++
+							}
+						}
+					}
+				}
+			}
+		case *ast.ReturnStmt:
+			if len(x.Results) == 2 {
+				if id, ok := x.Results[0].(*ast.Ident); ok && id.Name == "nil" && x.Pos() > lastGiveUp {
+					lastGiveUp = x.Pos()
+				}
+			}
+		}
 		c, ok := n.(*ast.CallExpr)
 		if !ok {
 			return true
+		}
+		if id, ok := c.Fun.(*ast.Ident); ok && id.Name == "delete" && len(c.Args) == 2 {
+			if a0, ok := c.Args[0].(*ast.Ident); ok && a0.Name == "offerIDsToDecline" {
+				deletePos = c.Pos()
+			}
 		}
 		sel, ok := c.Fun.(*ast.SelectorExpr)
 		if !ok {
@@ -93,6 +125,7 @@ func trPlacement() string {
 		case "Subtract":
 			if id, ok := sel.X.(*ast.Ident); ok && id.Name == "remainingResourcesInOffer" {
 				subtracts++
+				subtractPos = append(subtractPos, c.Pos())
 			}
 		}
 		return true
@@ -108,9 +141,18 @@ func trPlacement() string {
 	if mins != 2 {
 		die("placement: expected 2 availPorts.Min() picks, found %d", mins)
 	}
-	if subtracts != 2 {
-		die("placement: expected 2 remainingResourcesInOffer.Subtract calls (one per picked port), found %d — "+
-			"the model (static ranges, cpu, memory never subtracted) no longer describes this function", subtracts)
+	// static ranges before the channel loop, one per picked port, the complete request at the end
+	if subtracts != 4 || !(subtractPos[0] < loop.Pos()) || !in(subtractPos[1]) || in(subtractPos[2]) || in(subtractPos[3]) {
+		die("placement: expected 4 remainingResourcesInOffer.Subtract calls (static ranges before the channel loop, "+
+			"the dynamic port inside it, the control port and the complete request after it), found %d — "+
+			"the model no longer describes this function", subtracts)
+	}
+	if guards != 2 {
+		die("placement: expected an `if len(availPorts) == 0 { return ... }` guard before each of the 2 Min() picks, found %d", guards)
+	}
+	if deletePos == token.NoPos || deletePos < lastGiveUp {
+		die("placement: the offer must leave offerIDsToDecline only after the last `return nil, nil` (delete at %s, last give-up at %s)",
+			fset.Position(deletePos), fset.Position(lastGiveUp))
 	}
 	// the matching functions the model treats as values-in, value-out must not write into, alias or
 	// extend what they are given (the class's own constraint list is handed to MergeParent for every
